@@ -27,6 +27,18 @@ Signatures: a failing cell is re-explored with the domain (resp. range) geometry
 one; a geometry facet is only kept in the signature when the failure disappears with the replacement
 (deterministic, cell-local facet minimisation), representations that all fail are collapsed, and a
 representation of the geometry-carried/dtype facets is only named when its plain analogue passes.
+
+MappedGeometry alphabet (checks/_c12_models.py): map {element-wise sinh, cumulative sum along axis 0, cyclic shift along
+every axis, dense linear mixing along axis 0; cumsum-of-sinh with an attached gradient} x base geometry {Continuous1D,
+Image2D row-major / column-major, Continuous2D}, as domain and as range.  The reference composes the documented maps in
+the documented order (par2fun = map o base.par2fun, fun2par = base.fun2par o imap) from dense matrices / index loops.
+
+Derived models are members of the model catalogue: `B.T` (quick) and `(B.T).T` (thorough) of a LinearModel B given by a
+matrix or by callables, arranged such that the derived model maps the cell's domain to the cell's range.  Unequal domain
+and range geometries (kind, map, size; non-square operators) are the rule in the product.  First the derived model's
+geometries must be the base model's, swapped (own signature, the cell is then not judged further - everything else would
+follow from it); then it runs through the same batteries as every other model (forward, adjoint, gradient, get_matrix,
+rename) against the dense transposed operator between the swapped dense reference geometries.
 """
 import numpy as np
 from vfw.core import CellResult, close
@@ -34,8 +46,10 @@ from vfw import refs
 from checks import _c12_models as M
 
 PROPERTY = "C12"
-RULE = ("cells = model kind x domain geometry kind x range geometry kind x size variant (+ '=dom' cells whose range "
-        "geometry is an equal copy of the domain geometry) x value catalogue; inside a cell all basis points, the "
+RULE = ("cells = model kind (incl. the derived models LinearModel.T / .T.T) x domain geometry kind x range geometry kind x "
+        "size variant (+ '=dom' cells whose range geometry is an equal copy of the domain geometry) x value catalogue; the "
+        "kinds of the MappedGeometry alphabet (map x base geometry) are crossed with a covering subset of partner kinds; "
+        "a derived model must carry the base model's geometries swapped and is then judged like any other model; inside a cell all basis points, the "
         "origin, a small-integer generic point and the dyadic generic points go through every input representation: "
         "par ndarray via forward/__call__/keyword/@, function values with is_par=False, CUQIarray par/fun with the "
         "model's domain geometry, CUQIarray with a different-but-compatible geometry (default geometry, Continuous1D on "
@@ -46,7 +60,8 @@ RULE = ("cells = model kind x domain geometry kind x range geometry kind x size 
         "when at least one forward value was compared with the composed reference")
 BOUND = {
     "quick": "models {Model+jacobian, Model+gradient, Model, LinearModel matrix/callables/inferred, PDEModel Poisson "
-             "(plain, +jacobian_wrt_parameter, +gradient_wrt_parameter), Heat forward/backward Euler} x 15 domain "
+             "(plain, +jacobian_wrt_parameter, +gradient_wrt_parameter), Heat forward/backward Euler; derived: "
+             "LinearModel(matrix).T, LinearModel(callables).T, LinearModel(matrix, inferred geometries).T, non-square} x 15 domain "
              "geometry kinds {default 1-D/2-D, Continuous1D/2D, Image2D C/F/visual_only, Discrete, MappedGeometry "
              "(+gradient), KLExpansion (+gradient), StepExpansion (+gradient), user class with gradient} x (11 range "
              "geometry kinds + equal copy of the domain), one size per kind (par dims 2..6, function dims 3..7; the "
@@ -56,12 +71,30 @@ BOUND = {
              "in 3-column and the first point in 1-column collections; adjoint of the 3 linear model kinds with the same "
              "battery on basis + origin + integer + dyadic points of the range; gradient at 2 linearisation points x 16 "
              "representation pairs x (range_dim + 1) directions, + 11 geometry-carried/dtype pairs at the generic "
-             "linearisation point (integer pair at the integer-valued one); lin_mat only with 1-D function spaces",
+             "linearisation point (integer pair at the integer-valued one); lin_mat only with 1-D function spaces; "
+             "MappedGeometry alphabet: domain kinds {cumsum o Image2D-F, shift o Continuous2D, mixing o Image2D-C, cumsum o "
+             "Continuous1D, cumsum-of-sinh o Image2D-F with gradient} x range {plain 1-D, Image2D-F, equal copy, one mapped "
+             "range}, range kinds {cumsum o Image2D-C, shift o Image2D-F, mixing o Continuous2D, mixing o Continuous1D} x "
+             "domain {plain 1-D, Image2D-C, StepExpansion with gradient}, every model kind",
     "thorough": "same product with 2 sizes per domain and per range kind (4 combinations), points = basis + origin + "
                 "integer generic + 3 dyadic generic, every Samples variant with 1..3 columns, gradient linearised at "
-                "every point (extra pairs at the last generic point, integer pair at every integer-valued point)",
+                "every point (extra pairs at the last generic point, integer pair at every integer-valued point); MappedGeometry "
+                "alphabet: all 15 map x base kinds {sinh, cumsum, shift, mixing} x {Continuous1D, Image2D-C, Image2D-F, "
+                "Continuous2D} (+ cumsum-of-sinh with gradient over Continuous1D / Image2D-F as domain) against every basic "
+                "kind of the other side, an equal copy and one mapped partner (second size for the plain 1-D / Image2D-C / "
+                "mapped partners); derived models additionally (B.T).T (first size variant)",
 }
 ASSUMPTIONS = [
+    "MappedGeometry: the documented composition is the reference (par2fun = map after the wrapped geometry's par2fun, "
+    "fun2par = the wrapped geometry's fun2par after imap, imap being the inverse of map on function arrays of the wrapped "
+    "geometry's fun_shape); the maps handed to the library are plain numpy expressions (cumsum/diff, roll, W @ f / solve), "
+    "the reference uses dense triangular/mixing matrices and explicit index loops; new mapped kinds are crossed with a "
+    "covering subset of partner kinds (the model layer converts input and output by the two geometries independently)",
+    "derived models: LinearModel.T is the only model-producing operation of cuqi/model/_model.py besides "
+    "model(distribution) (no composition / shifted models exist); 'acting as the transpose' is read as: domain geometry "
+    "= the base model's range geometry and vice versa (judged by type, parameter shape and par2fun on a generic point, "
+    "object identity is not demanded), forward = the base model's adjoint; keyword calls use the derived model's own "
+    "input name; the renamed copy model(distribution) is judged by the rename check only, not by the full battery",
     "the reference geometry maps (index arithmetic for Image2D/Continuous2D, the documented sine expansion for "
     "KLExpansion, integer interval membership for StepExpansion) are compared with the library geometry in every "
     "cell; a disagreement is reported under its own signature and the cell is not judged further",
@@ -102,24 +135,57 @@ REP_GROUPS = [("cuqi-*", CUQI_REPS), ("cuqi-fun*", CUQI_REPS[1:]), ("par-*", PAR
               ("samples-othergeom", ("samples-defaultgeom", "samples-othergrid"))]
 
 
+def _geometry_pairs(tier):
+    """(domain kind, range kind, size variants) of a tier.
+
+    1. the full product of the basic kinds (every size variant);
+    2. the MappedGeometry alphabet (map x base geometry, checks/_c12_models.py).  Geometries of the two sides are
+       processed independently of each other by the model layer, so the new kinds are crossed with a covering subset of
+       partners instead of the full product: as domain with {plain 1-D, a reshaping range, an equal copy of itself, one
+       mapped range of the alphabet}, as range with {plain 1-D, a reshaping domain, an expansion with gradient}; the
+       thorough tier takes all 15 map x base kinds (+2 with gradient) against every basic kind of the other side."""
+    quick = tier == "quick"
+    variants = [(0, 0)] if quick else [(0, 0), (0, 1), (1, 0), (1, 1)]
+    for dom in M.DOM_KINDS:
+        for rng in M.RNG_KINDS + [EQ_RANGE]:
+            yield dom, rng, [v for v in variants if not (rng == EQ_RANGE and v[1] != 0)]
+    if quick:
+        nd, nr = M.QUICK_MAPPED_DOM, M.QUICK_MAPPED_RNG
+        for i, dom in enumerate(nd):
+            for rng in ["default1d", "image2d_F", EQ_RANGE, nr[i % len(nr)]]:
+                yield dom, rng, [(0, 0)]
+        for rng in nr:
+            for dom in ["default1d", "image2d_C", "step_grad"]:
+                yield dom, rng, [(0, 0)]
+    else:
+        nd, nr = M.MAPPED_KINDS + M.MAPPED_GRAD_KINDS, M.MAPPED_KINDS
+        for i, dom in enumerate(nd):
+            partner = nr[(i + 5) % len(nr)]
+            for rng in M.RNG_KINDS + [EQ_RANGE, partner]:
+                yield dom, rng, [(0, 0), (1, 1)] if rng in ("default1d", partner) else [(0, 0)]
+        for rng in nr:
+            for dom in M.DOM_KINDS:
+                yield dom, rng, [(0, 0), (1, 1)] if dom in ("default1d", "image2d_C") else [(0, 0)]
+
+
 def cells(tier, seed):
     k = refs.cat(seed)
-    variants = [(0, 0)] if tier == "quick" else [(0, 0), (0, 1), (1, 0), (1, 1)]
     npts = 1 if tier == "quick" else 3
     allw = tier != "quick"
-    for model in M.MODELS:
-        for dom in M.DOM_KINDS:
-            for rng in M.RNG_KINDS + [EQ_RANGE]:
-                if model == "lin_mat" and not M.lin_mat_applicable(dom, dom if rng == EQ_RANGE else rng):
-                    continue
-                for vd, vr in variants:
-                    if rng == EQ_RANGE and vr != 0:
-                        continue
-                    yield {"model": model, "dom": dom, "rng": rng, "vd": vd, "vr": vr, "cat": k,
-                           "npts": npts, "allw": allw}
-    for vd in sorted({v[0] for v in variants}):
-        yield {"model": "lin_inferred", "dom": "default1d", "rng": "default1d", "vd": vd, "vr": vd, "cat": k,
-               "npts": npts, "allw": allw}
+    models = M.MODELS + M.DERIVED_MODELS + ([] if tier == "quick" else M.DERIVED_MODELS_THOROUGH)
+    for model in models:
+        for dom, rng, variants in _geometry_pairs(tier):
+            if M.needs_1d_function_spaces(model) and not M.lin_mat_applicable(dom, dom if rng == EQ_RANGE else rng):
+                continue
+            if model in M.DERIVED_MODELS_THOROUGH:
+                variants = variants[:1]
+            for vd, vr in variants:
+                yield {"model": model, "dom": dom, "rng": rng, "vd": vd, "vr": vr, "cat": k,
+                       "npts": npts, "allw": allw}
+    for model in ["lin_inferred", "lin_inferred_T"] + ([] if tier == "quick" else ["lin_inferred_TT"]):
+        for vd in ([0] if tier == "quick" else [0, 1]):
+            yield {"model": model, "dom": "default1d", "rng": "default1d", "vd": vd, "vr": vd, "cat": k,
+                   "npts": npts, "allw": allw}
 
 
 # --------------------------------------------------------------------------------------------------
@@ -156,18 +222,26 @@ class _Raw(list):
 def _check_geometry_reference(res, raw, g, lib, k):
     """The dense reference maps must agree with the library geometry (else: not C12's business)."""
     p = refs.dyadic_vec(g.n, k + 1, scale=0.125)
+    bad = []
     try:
         a = lib.par2fun(p.copy())
-        ok = np.asarray(a).shape == g.fshape and close(a, g.p2f(p), 1e-10)
-        b = lib.fun2par(np.array(g.p2f(p)))
-        ok = ok and close(_flat(b), g.f2p(g.p2f(p)), 1e-10)
+        if not (np.asarray(a).shape == g.fshape and close(a, g.p2f(p), 1e-10)):
+            bad.append("par2fun")
     except Exception:  # noqa
-        ok = False
+        bad.append("par2fun")
+    try:
+        b = lib.fun2par(np.array(g.p2f(p)))
+        if not close(_flat(b), g.f2p(g.p2f(p)), 1e-10):
+            bad.append("fun2par")
+    except Exception:  # noqa
+        bad.append("fun2par")
     res.transitions += 2
-    if not ok:
+    if bad:
         raw.add("geometry-map", type(lib).__name__,
-                "the geometry's own par2fun/fun2par differ from the documented maps (kind %s); cell not judged" % g.kind)
-    return ok
+                "the geometry's own %s differ(s) from the documented map (kind %s: for a MappedGeometry par2fun = map o "
+                "base.par2fun and fun2par = base.fun2par o imap); cell not judged" % ("/".join(bad), g.kind),
+                rep="+".join(bad))
+    return not bad
 
 
 def _is_int(p):
@@ -357,12 +431,28 @@ def _explore(res, cell):
         gr = M.RefGeom(cell["rng"], "rng", cell["vr"], k)
     b = M.build_model(name, gd, gr, k)
     model = b.model
+    if model is None:
+        raw.mcls = "LinearModel"
+        raw.add("derived-raises", b.derivation, "forming %s of a LinearModel raised %r" % (b.derivation, b.error))
+        return raw
     mcls = type(model).__name__
     dg, rg = model.domain_geometry, model.range_geometry
     n, m = gd.n, gr.n
+    raw.mcls = mcls
+    if hasattr(b, "expect"):
+        # a derived model (A.T, A.T.T): the transposed operator maps the base model's range space to its domain space,
+        # so its geometries are the base model's, swapped; everything below judges it like any other catalogue member
+        res.state("derived:" + b.derivation)
+        res.transitions += 1
+        edg, erg = b.expect
+        if not (_same_geometry(dg, edg) and _same_geometry(rg, erg)):
+            raw.add("derived-geometry", b.derivation,
+                    "the model %s of a base model %r -> %r has domain %r and range %r; the transposed operator acts from the "
+                    "base model's range space to its domain space, expected domain %r and range %r; cell not judged"
+                    % (b.derivation.replace("T", "base.T", 1), b.base.domain_geometry, b.base.range_geometry, dg, rg, edg, erg))
+            return raw
     if model.domain_dim != n or model.range_dim != m:
         raise AssertionError("harness: dimension bookkeeping %s" % cell)
-    raw.mcls = mcls
     if not (_check_geometry_reference(res, raw, gd, dg, k) and _check_geometry_reference(res, raw, gr, rg, k)):
         return raw
 
@@ -380,7 +470,10 @@ def _explore(res, cell):
     compared = [0]
 
     # ---- 1. forward in every single-vector representation, 2. sample collections ----------------
-    extra = [("par-call", lambda p: model(p.copy())), ("par-keyword", lambda p: model.forward(x=p.copy()))]
+    # keyword call by the model's own input name ('x' for the user functions of the catalogue; a transposed matrix
+    # model names its input after the library's adjoint function)
+    argname = list(cuqi.utilities.get_non_default_args(model))[0]
+    extra = [("par-call", lambda p: model(p.copy())), ("par-keyword", lambda p: model.forward(**{argname: p.copy()}))]
     if mcls == "LinearModel":
         extra.append(("par-matmul", lambda p: model @ p.copy()))
     _battery(res, raw, "forward", lambda x, **kw: model.forward(x, **kw), extra, gd, gr, dg, rg, pts, refs_at, compared,
@@ -584,6 +677,7 @@ def _check_rename(res, raw, cell, model, pts, refs_at, n, m):
         return (list(model._non_default_args), id(model.domain_geometry), id(model.range_geometry),
                 sorted(vars(model).keys()))
     before = fingerprint()
+    argname = list(model._non_default_args)[0]
     dist = cuqi.distribution.Gaussian(np.zeros(n), 1.0, name="zz")
     res.transitions += 1
     try:
@@ -607,7 +701,7 @@ def _check_rename(res, raw, cell, model, pts, refs_at, n, m):
             and _same_geometry(new.range_geometry, model.range_geometry)):
         raw.add("rename", "geometry", "renamed model has different geometries")
     for how, call in (("keyword", lambda: new(zz=p.copy())), ("positional", lambda: new(p.copy())),
-                      ("old-model", lambda: model(x=p.copy()))):
+                      ("old-model", lambda: model(**{argname: p.copy()}))):
         res.transitions += 1
         try:
             out = _flat(call())
@@ -659,6 +753,8 @@ def _emit(res, cell, raw):
         return
     mcls = raw.mcls
     name = cell["model"]
+    bname, derivation = M.base_kind(name)
+    inferred = bname == "lin_inferred"
     dummy = CellResult(cell)
     probes = {}
 
@@ -668,7 +764,7 @@ def _emit(res, cell, raw):
             c = dict(cell)
             c.update(override)
             try:
-                if c["model"] == "lin_mat" and not M.lin_mat_applicable(
+                if M.needs_1d_function_spaces(c["model"]) and not M.lin_mat_applicable(
                         c["dom"], c["dom"] if c["rng"] == EQ_RANGE else c["rng"]):
                     raise ValueError("inapplicable probe")
                 probes[key] = _explore(dummy, c).keys()
@@ -678,9 +774,16 @@ def _emit(res, cell, raw):
             dummy.transitions = 0
         return (f["op"], f["kind"], f["rep"], f["wrep"], f["drep"]) in probes[key]
 
+    def derived_label(f, default):
+        """`LinearModel.T` when the failure of a derived model disappears with the directly built model of the same
+        operator and geometries."""
+        if derivation and not persists(f, model=bname):
+            return "%s.%s" % (default, "T" if derivation == "T" else "T.T")
+        return default
+
     def geo_label(f, which):
         kind = cell[which]
-        if name == "lin_inferred":
+        if inferred:
             return "*"
         if persists(f, **{which: _plain_other(kind)}):
             return "*"
@@ -688,31 +791,47 @@ def _emit(res, cell, raw):
             sib = "kl_grad" if kind != "kl_grad" else "step_grad"
             if persists(f, **{which: sib}):
                 return "*_grad"
+        if M.parse_map_kind(kind) is not None:
+            # a kind of the MappedGeometry alphabet: does the failure need this map and this base?
+            if persists(f, **{which: "mapped"}):
+                return "mapped*"                    # any MappedGeometry, even element-wise over a 1-D base
+            mname, base, _ = M.parse_map_kind(kind)
+            if mname != "ew" and base != "c1":
+                sib = "map_perm_imgF" if (mname, base) != ("perm", "imgF") else "map_cs_imgC"
+                if persists(f, **{which: sib}):
+                    return "map_nonelementwise_reshaping"
         return kind
 
     groups = {}
     for f in raw:
         if f["op"] == "geometry-map":
-            res.fail("C12|%s|geometry-map|reference" % f["kind"], f["message"])
+            res.fail("C12|%s|geometry-map|%s" % (f["kind"], f["rep"]), f["message"])
             continue
         if f["op"] == "rename":
-            comp = "Model" if (mcls != "Model" and name != "lin_inferred" and persists(f, model="nograd")) else mcls
+            comp = "Model" if (mcls != "Model" and not inferred and persists(f, model="nograd")) else derived_label(f, mcls)
             res.fail("C12|%s|rename|%s" % (comp, f["kind"]), f["message"], **f["detail"])
+            continue
+        if f["op"] in ("derived-geometry", "derived-raises"):
+            res.fail("C12|%s|%s|%s" % (mcls, f["kind"], "derived-geometries" if f["op"] == "derived-geometry" else "raises"),
+                     f["message"])
             continue
         if cell["rng"] == EQ_RANGE:
             # is the equal copy needed at all?  (same domain, an unrelated plain range)
-            rlab = "*" if name != "lin_inferred" and persists(f, rng="default1d") else "equal-copy"
+            rlab = "*" if not inferred and persists(f, rng="default1d") else "equal-copy"
             geo = "dom=%s,rng=%s" % (geo_label(f, "dom"), rlab)
         else:
             geo = "dom=%s,rng=%s" % (geo_label(f, "dom"), geo_label(f, "rng"))
         comp, mlab = mcls, name
-        if name != "lin_inferred":
-            if f["op"] == "gradient":
-                # the kind of derivative information is a facet only if the failure needs it
-                if persists(f, model=("jac" if name != "jac" else "grad")):
-                    comp, mlab = "Model", "*"
-            elif mcls != "Model" and persists(f, model="nograd"):
-                comp = "Model"
+        if f["op"] == "gradient":
+            # the kind of derivative information is a facet only if the failure needs it
+            if not inferred and persists(f, model=("jac" if name != "jac" else "grad")):
+                comp, mlab = "Model", "*"
+            elif derivation and persists(f, model=bname):
+                mlab = bname                        # not specific to the derived model
+        elif not inferred and mcls != "Model" and persists(f, model="nograd"):
+            comp = "Model"
+        else:
+            comp = derived_label(f, mcls)
         groups.setdefault((comp, f["op"], f["kind"], geo, mlab), []).append(f)
     for (comp, op, kind, geo, mlab), fs in sorted(groups.items()):
         if op == "gradient":
